@@ -450,10 +450,25 @@ fn c05_concrete(_ctx: &Ctx, r: &mut Report) {
 
 // ------------------------------------------------------------------------------------ C13
 
+/// the scope a visibility grants access to, as a path (`None` = everywhere, `["self"]` = private)
+pub fn scope_of(v: &syn::Visibility) -> Option<Vec<String>> {
+    match v {
+        syn::Visibility::Public(_) => None,
+        syn::Visibility::Inherited => Some(vec!["self".to_string()]),
+        syn::Visibility::Restricted(r) => {
+            let mut p: Vec<String> = r.path.segments.iter().map(|s| s.ident.to_string()).collect();
+            if r.path.leading_colon.is_some() {
+                p.insert(0, "::".to_string());
+            }
+            Some(p)
+        }
+    }
+}
+
 fn c13_visibility(_ctx: &Ctx, r: &mut Report) {
-    r.domain = "requested visibility {none, pub, pub(crate), pub(super), pub(in crate::a)} x fn visibility {none, pub, pub(crate)} x {fn, mod}; trait inputs with delegation target x trait visibility {none, pub, pub(crate)} x {static, dynamic}".into();
+    r.domain = "requested visibility {none, pub, pub(crate), pub(super), pub(self), pub(in self), pub(in super), pub(in super::super), pub(in super::a), pub(in crate::a), pub(in ::a)} x fn visibility {none, pub, pub(crate)} x {fn, mod}; trait inputs with delegation target x trait visibility {none, pub, pub(crate)} x {static, dynamic}".into();
     r.bound = "exhaustive".into();
-    let req = ["", "pub", "pub(crate)", "pub(super)", "pub(in crate::a)"];
+    let req = ["", "pub", "pub(crate)", "pub(super)", "pub(self)", "pub(in self)", "pub(in super)", "pub(in super::super)", "pub(in super::a)", "pub(in crate::a)", "pub(in ::a)"];
     for rv in req {
         for fv in ["", "pub", "pub(crate)"] {
             for mode in [Mode::Fn, Mode::Mod] {
@@ -490,9 +505,23 @@ fn c13_visibility(_ctx: &Ctx, r: &mut Report) {
                         match inner {
                             Some(t) => {
                                 let got = tt_string(&t.vis);
-                                let want_inner = if rv.is_empty() { "pub (super)".to_string() } else { want.clone() };
-                                if got != want_inner {
-                                    r.fail("trait-visibility", &input, format!("trait inside the module is `{}`, expected `{}`", got, want_inner));
+                                // the trait is generated one module level below the scope the visibility was written in: it must
+                                // be visible exactly as far as an item declared next to the module with the requested visibility
+                                let want_scope = scope_of(&syn::parse_str::<syn::Visibility>(rv).unwrap()).map(|mut p| {
+                                    if p.first().map(|s| s == "self" || s == "super").unwrap_or(false) {
+                                        p.retain(|s| s != "self");
+                                        p.insert(0, "super".to_string());
+                                    }
+                                    p
+                                });
+                                let mut got_scope = scope_of(&t.vis);
+                                if let Some(p) = got_scope.as_mut() {
+                                    if p.len() > 1 {
+                                        p.retain(|s| s != "self");
+                                    }
+                                }
+                                if got_scope != want_scope {
+                                    r.fail("trait-visibility", &input, format!("trait inside the module is `{}` (visible in {:?}); declared next to the module with `{}` it would be visible in {:?}", got, got_scope, rv, want_scope));
                                 }
                             }
                             None => r.fail("no-trait", &input, "trait not found in module".into()),
